@@ -728,16 +728,13 @@ var mul64 = []*instructionType{
 		immediate:    immTypeR,
 		effects: func(i instruction) []expr.Effect {
 			r1, r2 := regLoad(rs1, i, width64), regLoad(rs2, i, width64)
-			r1Abs := exprtools.Abs(r1, width64)
-			mul := expr.NewBinary(expr.Mul, r1Abs, r2, width128)
+			// Signed rs1 times unsigned rs2: rs1 is sign-extended and
+			// rs2 zero-extended to the double width.
+			r1Ext := sext(r1, 63, width128)
+			mul := expr.NewBinary(expr.Mul, r1Ext, r2, width128)
 			shift := expr.ConstFromUint[uint8](64)
 			shifted := expr.NewBinary(expr.Rsh, mul, shift, width128)
-			val := exprtools.BoolCond(
-				exprtools.IntNegative(r1, width64),
-				shifted,
-				exprtools.Negate(shifted, width64),
-				width64,
-			)
+			val := exprtools.NewWidthGadget(shifted, width64)
 			return []expr.Effect{regStore(val, i, width64)}
 		},
 	}, {
